@@ -317,6 +317,11 @@ def escape(P, R):
             'pass through _wrap / Function / _map_container, none returns '
             'a raw node')
     R.floor('R-PAIR wrapped returns in dd.autoref', n_wrapped, 20)
+    wrap_target(P, R)
+    parser_stack(P, R)
+
+
+def wrap_target(P, R):
     # wrappers: the wrapping manager is the one that owns the node
     for q, want in (('dd.autoref.BDD.copy', 'other'),
                     ('dd.autoref.copy_bdd', 'target')):
@@ -334,7 +339,11 @@ def escape(P, R):
                 f'the node created in the target manager `{want}` is '
                 'wrapped by another manager', unit=f.unit.rel,
                 line=f.lineno)
-    parser_stack(P, R)
+
+
+def r_wrap_target(P, R):
+    wrap_target(P, R)
+r_wrap_target.NAME = 'R-DOMAIN(copies wrapped by the target manager)'
 
 
 def parser_stack(P, R):
